@@ -117,6 +117,9 @@ pub mod filt {
     }
 }
 
+/// Set by the replay of hand-written reproducers (`assigner=always` in the header): every session keeps the assigner.
+pub static ASSIGNER_ALWAYS: std::sync::atomic::AtomicBool = std::sync::atomic::AtomicBool::new(false);
+
 pub enum Front {
     Plain(Database),
     Single(SingleWriterTxDatabase),
@@ -344,6 +347,10 @@ pub struct Exec {
     pub tolerant: bool,
     /// per operation index: did it return an error (tolerant mode)
     pub op_errors: Vec<(usize, String)>,
+    /// C18: the current session was opened WITHOUT the compaction filter assigner (no keyspace has a filter in it)
+    pub assigner_off: bool,
+    /// C18: create options cloned from keyspaces that had a filter factory installed (kept across sessions)
+    pub kept_configs: Vec<fjall::KeyspaceCreateOptions>,
 }
 
 fn err(sig: &str, what: &str, e: &fjall::Error) -> Deviation {
@@ -378,6 +385,8 @@ impl Exec {
             flip_journal_lz4_on_reopen: false,
             tolerant: false,
             op_errors: Vec::new(),
+            assigner_off: false,
+            kept_configs: Vec::new(),
         }
     }
 
@@ -412,7 +421,7 @@ impl Exec {
                     .worker_threads_unchecked(self.cfg.workers)
                     .journal_compression(comp)
                     .manual_journal_persist(self.cfg.manual_persist);
-                if let Some(a) = &self.cfg.assigner {
+                if let (Some(a), false) = (&self.cfg.assigner, self.assigner_off) {
                     b = b.with_compaction_filter_factories(a.clone());
                 }
                 b.open()
@@ -713,14 +722,28 @@ impl Exec {
                 } else {
                     None
                 };
-                let h = match donor {
-                    Some(d) => {
+                let kept = if self.cfg.assigner.is_some() && self.assigner_off && !existed && !self.kept_configs.is_empty() {
+                    // options cloned in an earlier session from a keyspace that had a filter: in a session without
+                    // assigner nothing may get a filter
+                    Some(self.kept_configs[(*cfg as usize) % self.kept_configs.len()].clone())
+                } else {
+                    None
+                };
+                let h = match (kept, donor) {
+                    (Some(k), _) => {
+                        self.stats.inc("filter.keyspaces_created_from_kept_config_without_assigner");
+                        self.db().keyspace(&name, || c.options_onto(k))
+                    }
+                    (None, Some(d)) => {
                         self.stats.inc("filter.keyspaces_created_from_cloned_config");
                         self.db().keyspace(&name, || c.options_onto(d.config.clone()))
                     }
-                    None => self.db().keyspace(&name, || c.options()),
+                    (None, None) => self.db().keyspace(&name, || c.options()),
                 }
                 .map_err(|e| err("keyspace-create", &name, &e))?;
+                if self.cfg.assigner.is_some() && !self.assigner_off && filt::assigned(*ks) && self.kept_configs.len() < 4 {
+                    self.kept_configs.push(h.config.clone());
+                }
                 self.handles.insert(*ks, h);
                 self.model.apply(op);
             }
@@ -803,6 +826,13 @@ impl Exec {
                 if self.flip_journal_lz4_on_reopen {
                     self.cfg.journal_lz4 = !self.cfg.journal_lz4;
                     self.stats.inc("journal_compression_flips");
+                }
+                if self.cfg.assigner.is_some() && !ASSIGNER_ALWAYS.load(std::sync::atomic::Ordering::Relaxed) {
+                    // C18: one session in four is opened without the assigner: no keyspace has a filter in it
+                    self.assigner_off = self.rng.chance(1, 4);
+                    if self.assigner_off {
+                        self.stats.inc("filter.sessions_without_assigner");
+                    }
                 }
                 self.open_front(*front)?;
                 self.check_names()?;
